@@ -358,7 +358,9 @@ SIBLING_KINDS = ["domain-x", "domain-y", "source-scale", "bg", "meas", "precisio
                  "source-inplace", "profiles-inplace", "interior-shrink", "int-dtype", "levels-many", "meas-origin", "threads",
                  # fewer retained modes on the same padded geometry, right after the full-spectrum call (a work array that is
                  # only rewritten in the retained block keeps the earlier call's high wavenumbers)
-                 "modes-fewer"]
+                 "modes-fewer",
+                 # the same column refined to 70 layers (fast paths that switch on for tall grids)
+                 "nz-many"]
 ALIAS_KINDS = {"source-inplace": ["q0"], "profiles-inplace": ["profiles"]}
 
 
@@ -481,6 +483,16 @@ def sibling(rng, case, kind):
             c["halo"] = float(1.3 * case["domain"][0] / nx)
     elif kind == "threads":
         c["_threads"] = 4
+    elif kind == "nz-many":
+        z = np.asarray(case["z"], dtype=float)
+        nzn = 70
+        t_old = np.linspace(0.0, 1.0, len(z))
+        t_new = np.linspace(0.0, 1.0, nzn)
+        c["z"] = np.interp(t_new, t_old, z)
+        c["profiles"] = tuple(np.interp(t_new, t_old, np.asarray(a, dtype=float)) for a in case["profiles"])
+        lv = levels_list(case)
+        remap = lambda l: int(round(l * (nzn - 1) / max(1, len(z) - 1)))
+        c["levels"] = [remap(l) for l in lv] if np.ndim(case["levels"]) > 0 else remap(lv[0])
     elif kind == "modes-fewer":
         if tuple(case["modes"]) == (2, 2):
             raise ValueError("already the smallest mode request")
